@@ -171,12 +171,21 @@ def _radius_generating_fns(
     each_length: np.ndarray,
     parents: np.ndarray,
     types: np.ndarray,
+    point_types: np.ndarray,
 ) -> List[Callable]:
-    """For all branches in a cell, returns callable that return radius given loc."""
+    """For all branches in a cell, returns callable that return radius given loc.
+
+    Args:
+        point_types: The SWC type of every traced point (second column of the file).
+    """
     radius_fns = []
     for i, branch in enumerate(all_branches):
-        rads_in_branch = radiuses[np.asarray(branch) - 1]
-        if parents[i] > -1 and types[i] != types[parents[i]]:
+        inds = np.asarray(branch) - 1
+        rads_in_branch = radiuses[inds]
+        # The first point of a branch is the point at which it attaches to its parent.
+        # Comparing point types (instead of `types[parents[i]]`) also covers neurites
+        # that start at the root of a multi-point soma and thus have `parents[i] == -1`.
+        if len(inds) > 1 and point_types[inds[0]] != point_types[inds[1]]:
             # We do not want to linearly interpolate between the radius of the previous
             # branch if a new type of neurite is found (e.g. switch from soma to
             # apical). From looking at the SWC from n140.swc I believe that this is
